@@ -3,6 +3,7 @@ package keymap
 import (
 	"sort"
 	"strings"
+	"unicode/utf8"
 
 	"github.com/reeflective/readline/inputrc"
 	"github.com/reeflective/readline/internal/core"
@@ -114,6 +115,13 @@ func (m *Engine) dispatchKeys(binds map[string]inputrc.Bind) (bind inputrc.Bind,
 		// If the current keys have no matches but the previous
 		// matching process found a prefix, use it with the keys.
 		if match.Action == "" && len(prefixed) == 0 {
+			// The key might be the first byte of a multibyte (UTF-8) character,
+			// bound as a byte to some command (like self-insert): use the whole
+			// character as the key, or wait for the rest of it to be read.
+			if char, incomplete := m.matchMultibyte(read, binds); incomplete || len(char) > 0 {
+				return m.active, incomplete, char, char
+			}
+
 			prefix = false
 			m.active = m.prefixed
 			m.prefixed = inputrc.Bind{}
@@ -192,6 +200,60 @@ func (m *Engine) matchBind(keys []byte, binds map[string]inputrc.Bind) (inputrc.
 	}
 
 	return match, prefixed
+}
+
+// matchMultibyte is called when the keys read matched no bind sequence: if the first byte
+// is the leading byte of a multibyte UTF-8 character and is bound (as a raw byte) to a
+// command, the bytes of the whole character are popped and returned as the matched keys,
+// with the command bound to the leading byte as the active one. If the input buffer ends
+// before the character is complete, incomplete is true and all the bytes popped so far are
+// returned, so that they are tried again once the remaining bytes have been read.
+func (m *Engine) matchMultibyte(read []byte, binds map[string]inputrc.Bind) (char []byte, incomplete bool) {
+	if m.prefixed.Action != "" || !utf8.RuneStart(read[0]) || read[0] < utf8.RuneSelf {
+		return nil, false
+	}
+
+	// The bytes read so far might be the beginning of the same character, when
+	// they happened to be a prefix of some bind sequence: they are popped already.
+	for _, b := range read[1:] {
+		if b&0xC0 != 0x80 || utf8.FullRune(read[:len(read)-1]) {
+			return nil, false
+		}
+	}
+
+	// Raw (8-bit) bytes are registered in the keymaps as inputrc.Unescape(string([]byte{b})).
+	bind, bound := binds[inputrc.Unescape(string(read[:1]))]
+	if !bound || bind.Macro || bind.Action == "" {
+		return nil, false
+	}
+
+	char = append(char, read...)
+	core.PopKey(m.keys)
+
+	for !utf8.FullRune(char) {
+		next, empty := core.PeekKey(m.keys)
+		if empty {
+			return char, true
+		}
+
+		if next&0xC0 != 0x80 {
+			break
+		}
+
+		char = append(char, next)
+		core.PopKey(m.keys)
+	}
+
+	// Invalid encodings are left to be dropped one byte at a time, as before.
+	if r, size := utf8.DecodeRune(char); r == utf8.RuneError || size != len(char) {
+		core.MatchedKeys(m.keys, nil, char[len(read)-1:]...)
+		return nil, false
+	}
+
+	m.active = bind
+	m.prefixed = inputrc.Bind{}
+
+	return char, false
 }
 
 func (m *Engine) resolve(bind inputrc.Bind) func() {
